@@ -4,6 +4,8 @@ Real code: DistributedShampoo.step() (serial) on generated configurations / shap
 Oracle: the step-locked float64 reference model (vf/ref.py), per block, after every step."""
 from __future__ import annotations
 
+import io
+
 from ..common import OutOfDomain, Violation, import_repo, rng_for, tgen
 
 ID = "C01"
@@ -126,7 +128,8 @@ def make_run(case):
     pk, presence = G.rand_presence(rnd, n, T)
     edits = G.rand_schedule(rnd, T, len(groups) if groups else 1, cfg)
     closure_steps = sorted(t for t in range(T) if rnd.random() < 0.5) if rnd.random() < 0.2 else []
-    return {"cfg": cfg, "shapes": shapes, "groups": groups, "T": T, "presence_kind": pk, "presence": presence, "edits": edits, "closure_steps": closure_steps, "grad_scale": gs, "grad_kind": rnd.choice(["dense", "dense", "lowrank", "sparse"])}
+    resume_steps = sorted(rnd.sample(range(T), rnd.randint(1, 2))) if rnd.random() < 0.2 else []
+    return {"cfg": cfg, "shapes": shapes, "groups": groups, "T": T, "presence_kind": pk, "presence": presence, "edits": edits, "closure_steps": closure_steps, "resume_steps": resume_steps, "grad_scale": gs, "grad_kind": rnd.choice(["dense", "dense", "lowrank", "sparse"])}
 
 
 def diverged(params, run):
@@ -166,6 +169,7 @@ def execute(run, case_seed, counters, monitor_kwargs=None, on_step=None):
     gg = tgen(*case_seed, "grads")
     edits = list(run["edits"])
     closure_steps = set(run.get("closure_steps", ()))
+    resume_steps = set(run.get("resume_steps", ()))
     execute.last_params = params
     for t in range(run["T"]):
         for e in [e for e in edits if e[0] == t]:
@@ -196,6 +200,19 @@ def execute(run, case_seed, counters, monitor_kwargs=None, on_step=None):
         else:
             opt.step()
         mon.post()
+        if t in resume_steps and t + 1 < run["T"]:
+            # the run continues on a freshly constructed optimizer that loaded the checkpoint (documented API): the monitor keeps
+            # judging every step against the documented recurrence, so state that lives outside the checkpoint shows up here
+            names = [(f"p{i}", p) for i, p in enumerate(params)]
+            buf = io.BytesIO()
+            torch.save(opt.distributed_state_dict(key_to_param=iter(names)), buf)
+            opt = G.build_optimizer(ds, torch, cfg, params, run["groups"])
+            opt.load_distributed_state_dict(torch.load(io.BytesIO(buf.getvalue()), weights_only=False), key_to_param=iter(names))
+            for e in [e for e in edits if e[0] <= t]:
+                if not (e[2] == "momentum" and mon.h[e[1]]["momentum"] == 0.0):
+                    opt.param_groups[e[1]][e[2]] = e[3]
+            mon.opt = opt
+            counters["resumed_from_checkpoint"] = counters.get("resumed_from_checkpoint", 0) + 1
         if on_step:
             on_step(t, opt, params, mon)
     return opt, params, mon
